@@ -173,3 +173,56 @@ Fixpoint list_eqb {A} (eqb : A -> A -> bool) (xs ys : list A) : bool :=
   | x :: xs', y :: ys' => eqb x y && list_eqb eqb xs' ys'
   | _, _ => false
   end.
+
+(** * Literal variant: [graft] on plain trees with an explicit [ignore] set
+
+    The code does not know atoms: [graft(tree, leaf, ignore)] walks a plain
+    tree and stops at a node when it is a leaf or when
+    [tree.get_topology_id() in ignore], where
+    [ignore = set(leaf.get_topology_id() for leaf in leaves[1:])].
+    [same_id a b] stands for "[a] and [b] have the same topology id".
+    [Proofs/BinarizeProofs.v] shows that this variant and the atom variant
+    above produce the same lists whenever equal ids imply equal leaf sets and
+    leaf names are distinct. *)
+Section Literal.
+Variable same_id : bt -> bt -> bool.
+
+Fixpoint graft_lit (ignore : list bt) (t x : bt) : list bt :=
+  BNode None x t ::
+  match t with
+  | BLeaf _ => []
+  | BNode _ l r =>
+      if existsb (same_id t) ignore then []
+      else map (fun g => BNode None g r) (graft_lit ignore l x)
+           ++ map (fun g => BNode None l g) (graft_lit ignore r x)
+  end.
+
+Fixpoint arrange_lit (xs : list bt) : list bt :=
+  match xs with
+  | [] => []
+  | x :: xs' =>
+      match xs' with
+      | [] => [x]
+      | _ :: _ => flat_map (fun t => graft_lit xs' t x) (arrange_lit xs')
+      end
+  end.
+
+Fixpoint binarize_lit (t : rose) : list bt :=
+  match t with
+  | RLeaf n => [BLeaf n]
+  | RNode lb cs =>
+      map (relabel lb) (flat_map arrange_lit (product (map binarize_lit cs)))
+  end.
+End Literal.
+
+(** leaf names, left to right *)
+Fixpoint bleaves (b : bt) : list lab :=
+  match b with
+  | BLeaf n => [n]
+  | BNode _ l r => bleaves l ++ bleaves r
+  end.
+
+(** a concrete stand-in for "same topology id": same set of leaf names *)
+Definition same_leafset (a b : bt) : bool :=
+  forallb (fun y => existsb (lab_eqb y) (bleaves b)) (bleaves a)
+  && forallb (fun y => existsb (lab_eqb y) (bleaves a)) (bleaves b).
